@@ -40,7 +40,7 @@ PROPS = {
         "assumptions": [],
     },
     "C07": {
-        "extra_props": ["ReachAll"],
+        "extra_props": ["ReachAll", "FullSys", "FullSysExample"],
         "spec_ops": ["c q headers"],
         "streams": [{"name": "ledger", "quick": 160, "thorough": 1600}, {"name": "sync", "quick": 64, "thorough": 800}],
         "rule": LEDGER_RULE + " Header ranges (start, end) up to tip+2 are requested after steps and at pauses of sliced ingestions; the specification column of every `q headers` line is the slice of (stable chain ++ heaviest branch) computed by the driver.",
@@ -74,7 +74,7 @@ PROPS = {
     "C20": {
         "model_spec_ops": ["c snap"],
         "spec_ops": [],
-        "extra_props": ["C01Reach", "C03History", "ReachAll"],
+        "extra_props": ["C01Reach", "C03History", "ReachAll", "FullSys", "FullSysExample"],
         "streams": [{"name": "ledger", "quick": 160, "thorough": 1600}, {"name": "sync", "quick": 64, "thorough": 800}],
         "rule": LEDGER_RULE + " The `snap` line dumps, canonically sorted: tree hashes, hashes in the stable-memory block cache, every cached tx out with value/address/height/reference count, per-block added and removed outpoints per address, announced headers by hash and by height, cached and recomputed tip depths.",
         "explanation": "theorems for every reachable state (no mid-block pause): block-cache hashes = tree hashes (Nodup, same length); keys of the per-block delta maps = tree hashes and their content = the blocks' projections; a tx-out entry exists iff referenced, count = number of references, content = true output; every outpoint a later query / fee computation / removal looks up is present (remove never fails); cached tip depths = recomputed, also after upgrade; announced headers: the two maps agree, none is a tree block, all heights > stable height after a pop, max height = maximum.",
@@ -86,7 +86,7 @@ PROPS = {
     "C01": {
         "model_spec_ops": ["c ledgerat"],
         "spec_ops": ["c ledgerat"],
-        "extra_props": ["C01Reach", "InvPush", "InvIngest", "BlockCodec", "ReachAll"],
+        "extra_props": ["C01Reach", "InvPush", "InvIngest", "BlockCodec", "ReachAll", "FullSys", "FullSysExample"],
         "streams": [{"name": "ledger", "quick": 160, "thorough": 1600}, {"name": "sync", "quick": 64, "thorough": 800}],
         "rule": LEDGER_RULE,
         "explanation": "theorems: for every state satisfying the global invariant Inv (established by init, preserved by push of a transaction-valid block and by ingestion+pop: Props/InvPush, Props/InvIngest) "
@@ -99,7 +99,7 @@ PROPS = {
         "assumptions": ["Address::from_script and txid computation are library functions (given)"],
     },
     "C05": {
-        "extra_props": ["ReachAll"],
+        "extra_props": ["ReachAll", "FullSys", "FullSysExample"],
         "spec_ops": ["c sumat"],
         "streams": [{"name": "ledger", "quick": 160, "thorough": 1600}, {"name": "sync", "quick": 64, "thorough": 800}],
         "rule": LEDGER_RULE,
@@ -113,7 +113,7 @@ PROPS = {
     "C10": {
         "model_spec_ops": ["c hb", "c reply"],
         "spec_ops": [],
-        "extra_props": ["BlockCodec"],
+        "extra_props": ["BlockCodec", "FullSys", "FullSysExample"],
         "streams": [{"name": "sync", "quick": 256, "thorough": 3200}],
         "rule": SYNC_RULE,
         "explanation": "theorems: insert_block accepts iff parent in tree, not already a child of it, header valid (C11), body valid (C12) and push succeeds; rejected blocks return no state (atomic); in a response the first "
@@ -124,7 +124,7 @@ PROPS = {
         "assumptions": ["regtest only for the end-to-end stream (proof of work must be mined); mainnet/testnet header rules are covered by C11's stream"],
     },
     "C13": {
-        "extra_props": ["C13Live"],
+        "extra_props": ["C13Live", "FullSys", "FullSysExample"],
         "model_spec_ops": ["c hb", "c reply"],
         "spec_ops": [],
         "streams": [{"name": "sync", "quick": 160, "thorough": 3200}],
